@@ -12,7 +12,7 @@ pub mod net;
 pub mod sched;
 pub mod common;
 pub mod parts;
-// pub mod wire;
+pub mod wire;
 // pub mod sim_reader;
 // pub mod sim_writer;
 // pub mod sim_pair;
